@@ -14,6 +14,12 @@ P = {
          "the real library and compared with the extracted model and with the L0 specification.",
          "The tree shape of the in-memory B+ tree is abstracted to its sorted leaf chain (covered by the tie with 48-key buckets). "
          "Hypothesis kv_ok: timestamp+TTL < 2^64 (uint64 wrap of IsExpired)."),
+ "C02": ("Rocq theorems (Sparse.v/SparseFacts.v): Get, RangeScan/GetAll and PrefixScan computed segment by segment (active index, "
+         "then sealed segments newest first, first occurrence wins, dead records shadow) equal the reads of the single merged index, "
+         "whose reads C01 ties to the specification. Tie: sparse-mode histories on the real library (small segments, deep on-disk "
+         "trees, reopens) compared call by call with the engine model run with RAM semantics and with the L0 spec.",
+         "The on-disk B+ tree node traversal and the index files' bytes are abstracted (per-segment sorted key list); covered by the tie. "
+         "Single-bucket histories as the property states (the bucket++key ambiguity across buckets is not claimed)."),
  "C03": ("Rocq theorems: PrefixScan/PrefixSearchScan on any sorted index with any mix of live, deleted and expired records = skip offset "
          "live prefixed keys, keep matching ones, at most limit (kv_prefix_scan_spec); pages concatenate to the live keys "
          "(prefix_pages_complete). Tie: scan-heavy histories, multi-level trees and a paging sweep over contents x prefix x offset x limit, "
